@@ -16,7 +16,7 @@ import scipy.sparse as sp
 from vf import msmcommon as mc
 from vf import clustercommon as cc
 
-RULE = ('cases = one routine of a 63-entry registry of the numerical API with '
+RULE = ('cases = one routine of a 64-entry registry of the numerical API with '
         'seeded arguments (including the degenerate ones that create masked '
         'cells: zero probabilities, all-zero joint-count blocks, zero rows); '
         'each argument tuple is evaluated 6 times in one process: heap fill '
@@ -255,6 +255,22 @@ def build_registry():
         return (X, [X[i].copy() for i in rng.choice(len(X), k, replace=False)],
                 E.libdist.euclidean), {}, False
     reg('assign_to_nearest_center', E.util.assign_to_nearest_center, g_assign)
+
+    def cutoff_metric(X, y):
+        # a metric with a cut-off: "not comparable" beyond it (+inf), as
+        # contact- or overlap-based similarity measures behave
+        d = np.sqrt(((np.asarray(X, dtype=float) - np.asarray(
+            y, dtype=float)) ** 2).sum(axis=1))
+        return np.where(d > 3.0, np.inf, d)
+
+    def g_assign_cut(rng):
+        X = g_data(rng)
+        X = X + 50.0 * rng.integers(0, 3, size=(len(X), 1))   # far groups
+        k = min(int(rng.integers(1, 4)), len(X))
+        return (X, [X[i].copy() for i in rng.choice(len(X), k, replace=False)],
+                cutoff_metric), {}, True
+    reg('assign_to_nearest_center[cutoff-metric]',
+        E.util.assign_to_nearest_center, g_assign_cut)
 
     def g_find(rng):
         n = int(rng.integers(2, 40))
